@@ -7,7 +7,7 @@
    the per-operand dtype oracle on every generated case (stated in DESIGN). *)
 From VF Require Import Base.Prelude Gen.Enums Gen.Configs Gen.Policy Gen.Registry Gen.Checks
      Gen.MatDesc Gen.InstChecks Gen.Scopes Model.Recipe Model.Check Model.Graph
-     Model.Plan Model.Perform Spec.WF Proofs.ListFacts Proofs.PerformStep Proofs.ModeProofs
+     Model.Plan Model.Perform Spec.WF Proofs.ListFacts Proofs.PerformStep Proofs.ModeProofs Proofs.PlanProofs
      Proofs.UntouchedProofs Model.Insts Proofs.InstsCover Proofs.GroupNest Proofs.ReadersProofs Proofs.PerformInv Proofs.SkeletonInv Proofs.ReadersOrig Spec.LastOk Proofs.LastOkSound.
 
 (* (a) mode -> per-operand transformation, for EVERY config in one of the
@@ -47,6 +47,25 @@ Proof.
   apply forallb_forall. vm_compute. reflexivity.
 Qed.
 Print Assumptions C03_policy_configs_have_a_mode.
+
+(* ... and none of them quantizes activations per channel (no kernel takes
+   per-channel activations): a static-range config with CHANNELWISE
+   activations is supported by no operator, so a rule carrying one ('*' rules
+   are not validated when added) resolves every operator to no-quantize.  The
+   oracle applies this necessary condition independently of the policy table
+   (directed stream "unsupported-config-through-star-rule"). *)
+Theorem C03_policy_activations_are_per_tensor :
+  forall c, In c policy_all_configs ->
+    match ocfg_activation_tensor_config c with
+    | Some a => tcfg_granularity a = Gr_TENSORWISE
+    | None => True end.
+Proof.
+  intros c Hin. pose proof policy_activation_tensorwise as H.
+  rewrite forallb_forall in H. specialize (H c Hin).
+  destruct (ocfg_activation_tensor_config c) as [a|]; [|exact I].
+  destruct (tcfg_granularity a); try discriminate; reflexivity.
+Qed.
+Print Assumptions C03_policy_activations_are_per_tensor.
 
 (* (b) an operator resolved to no-quantize (unmatched scope, explicit
    no_quantize, unknown builtin code, or unsupported config) plans
